@@ -259,7 +259,7 @@ type scenario struct {
 	terminator string // peer-close | stream-error | handler-error | deadline
 }
 
-var terminators = []string{"peer-close", "stream-error", "handler-error", "deadline"}
+var terminators = []string{"peer-close", "stream-error", "handler-error", "deadline", "transport-eof"}
 var forced = []string{"X1a", "X1b", "X2", "X3", "X4", "X5a", "X5b", "X5c", "X6", "X7", "X8", "X9"}
 
 func run(c *core.Case) {
@@ -368,6 +368,11 @@ func (w *world) terminate(kind string) {
 		w.p.Send(`<stream:error><conflict xmlns='urn:ietf:params:xml:ns:xmpp-streams'/></stream:error></stream:stream>`)
 	case "handler-error":
 		w.p.Send(`<fail xmlns='urn:verif:c10'/>`)
+	case "transport-eof":
+		// the connection ends without the peer having closed its stream: the
+		// statement does not say what Serve returns then, only that it returns,
+		// writes the closing tag at most once and leaves both directions closed
+		w.p.Peer.CloseWrite()
 	case "deadline":
 		// the peer stays silent; the application sets a close deadline and closes
 		e := w.h.begin("app", "setclosedeadline", "")
@@ -1193,7 +1198,7 @@ func Prop() *core.Prop {
 		Level: core.Exploration,
 		Race:  true,
 		Units: "porcupine_ops", // operations (close, transmit, Serve) placed by the checker
-		Rule:  "the first 24 cases are the forced scenarios X1a/X1b/X2/X3/X4 (orderings at the close.enter / senderr.enter yield points) X5a/X5b/X5c (the transport fails, entirely, after 5 bytes, or with a short write of 5 bytes, exactly on the write of the closing tag) and X6 (a transport with synchronous writes in both directions: Close blocked on the closing tag while the peer sends two more stanzas before reading) and X7 (a sender's context ends during its write and the write-deadline helper is parked at wdl.armed while the handler answers a peer IQ) and X8 (SetCloseDeadline replaces the input context while the serve loop is parked at serve.loop holding the old one) and X9 (a Close and the serve loop's default reply to an unanswered IQ both queue behind a token writer the application holds in mid-element), each c2s and s2s; the rest are stress histories on one served session (a third of them on a layered transport: a plain io.ReadWriter around the connection installed during negotiation, deadlines proxied): 0-3 closers (1-3 Close calls each, sometimes SetCloseDeadline), 1-4 senders drawing from 13 transmit entry points, peer-injected IQs answered by the handler or left to the session's default reply, and one terminator from {peer close tag, peer stream error, handler error, silence + 50 ms close deadline} issued early or after the actors; afterwards every entry point is called once more on the closed session. Oracles: closing-tag count and bytes after it on the peer side; porcupine check of the recorded history against a two-state closable-log model; marker-on-wire side conditions; State()/TokenReader after Serve; Serve's return per terminator. Distinct = (kind, terminator, closers, some transmit overlapped a Close?, some transmit began after a Close returned?, tags) and the observed interleaving of each history: the logical-clock order of the call/return boundaries of every explicit Close (C) and of Serve's own shutdown (S), with the transmits classified as before / overlapping / after the closes and by outcome (signatures order/…).",
+		Rule:  "the first 24 cases are the forced scenarios X1a/X1b/X2/X3/X4 (orderings at the close.enter / senderr.enter yield points) X5a/X5b/X5c (the transport fails, entirely, after 5 bytes, or with a short write of 5 bytes, exactly on the write of the closing tag) and X6 (a transport with synchronous writes in both directions: Close blocked on the closing tag while the peer sends two more stanzas before reading) and X7 (a sender's context ends during its write and the write-deadline helper is parked at wdl.armed while the handler answers a peer IQ) and X8 (SetCloseDeadline replaces the input context while the serve loop is parked at serve.loop holding the old one) and X9 (a Close and the serve loop's default reply to an unanswered IQ both queue behind a token writer the application holds in mid-element), each c2s and s2s; the rest are stress histories on one served session (a third of them on a layered transport: a plain io.ReadWriter around the connection installed during negotiation, deadlines proxied): 0-3 closers (1-3 Close calls each, sometimes SetCloseDeadline), 1-4 senders drawing from 13 transmit entry points, peer-injected IQs answered by the handler or left to the session's default reply, and one terminator from {peer close tag, peer stream error, handler error, silence + 50 ms close deadline, end of the connection without a closing tag} issued early or after the actors; afterwards every entry point is called once more on the closed session. Oracles: closing-tag count and bytes after it on the peer side; porcupine check of the recorded history against a two-state closable-log model; marker-on-wire side conditions; State()/TokenReader after Serve; Serve's return per terminator. Distinct = (kind, terminator, closers, some transmit overlapped a Close?, some transmit began after a Close returned?, tags) and the observed interleaving of each history: the logical-clock order of the call/return boundaries of every explicit Close (C) and of Serve's own shutdown (S), with the transmits classified as before / overlapping / after the closes and by outcome (signatures order/…).",
 		Assumptions: []string{
 			"a transmit that overlaps a Close in time may land on either side of the closing tag",
 			"handler replies are buffered until the handler returns, so their on-wire side condition is not demanded; their error value is",
@@ -1209,7 +1214,7 @@ func Prop() *core.Prop {
 		Run: run,
 		Require: []string{"forced_scenarios", "stress_histories", "close_under_write_fault", "close_returns_with_wire_snapshot", "synchronous_transport_closes", "cancelled_sender_deadline_scenarios", "close_deadline_during_loop_scenarios", "close_vs_default_reply_scenarios", "unanswered_iqs_injected", "x9_close_queued_behind_writer", "x9_default_reply_queued_behind_writer", "layered_transport_histories", "layered_transport_close_deadline", "yield:close.enter", "yield:senderr.enter", "transmits_overlapping_a_close",
 			"transmits_begun_after_a_close_returned", "late_transmits", "porcupine_checks",
-			"serve_returned:peer-close", "serve_returned:stream-error", "serve_returned:handler-error", "serve_returned:deadline"},
+			"serve_returned:peer-close", "serve_returned:stream-error", "serve_returned:handler-error", "serve_returned:deadline", "serve_returned:transport-eof"},
 		ReplayRepeats: 10,
 		CaseTimeout:   150 * time.Second,
 	}
